@@ -50,7 +50,10 @@ Section Lib.
     | VF b => match id with 0%N => negb (f_eq is64 b F7) | _ => negb (fb_sign is64 b) end
     | VS s => match id with
               | 0%N => existsb (N.eqb 64) s
-              | _ => Nat.even (List.length s)
+              | 1%N => Nat.even (List.length s)
+              (* `v.as_bytes()[0] != b'x'`: PARTIAL in Rust (it panics on the empty string); the corpus
+                 writes it only behind `not_empty`, where a faithful constructor never calls it on "" *)
+              | _ => match s with [] => false | c :: _ => negb (N.eqb c 120) end
               end
     | VL l => match id with
               | 0%N => match l with [] => false | _ => true end
